@@ -7,6 +7,15 @@ props = {json.loads(l)['id']: json.loads(l) for l in open('/verif/properties.jso
 p = props[prop]
 earlier = sorted(d for d in os.listdir('/verif/seeded') if d.split('-')[0].rstrip('abcdefghijklmnopqrstuvwxyz') == prop)
 names = '\n'.join('  - ' + d.split('-', 1)[1].replace('-', ' ') for d in earlier)
+import re, collections
+touched = collections.Counter()
+for d in earlier:
+    try:
+        for m in re.finditer(r'^diff --git a/(\S+)', open('/verif/seeded/%s/patch.diff' % d).read(), re.M):
+            touched[m.group(1)] += 1
+    except OSError:
+        pass
+files = '\n'.join('  - %s (%d earlier changes)' % (f, k) for f, k in touched.most_common())
 wt = '/tmp/w%s-%s' % (rnd, prop)
 print(f"""You are helping to test a verification effort for the Rust crate maciejhirsz/logos (a derive-macro lexer generator). Your job is to write ONE realistic, subtle change to logos that breaks the semantic property quoted below while the crate still compiles and its existing test suite still passes, plus a demonstration that exposes it.
 
@@ -22,6 +31,8 @@ WHAT TO PRODUCE
 3. A demonstration: the file {wt}/tests/tests/seeded_demo.rs (an integration test of the `tests` crate, run with `cargo test -p tests --test seeded_demo --offline`) that FAILS with your change applied and PASSES on the unchanged sources. It should check the property on the triggering case in the property's own terms.
 4. Earlier rounds already produced the following changes for this property. Yours must use a DIFFERENT mechanism in a DIFFERENT place of the code (another file or another function, another trigger):
 {names}
+   Files those earlier changes touched (prefer a file, or at least a function, that is not on this list or is rarely on it; the whole workspace is in scope: logos-codegen/src/**, src/*.rs, logos-cli/src/main.rs, logos-derive):
+{files}
 5. Verify all three facts yourself (suite green with the change, demo fails with it, demo passes without it - use `git diff > my_change.diff`, `git checkout -- logos-codegen src logos-derive logos-cli`, and `git apply my_change.diff`; never `git stash`). Then leave the worktree with the change APPLIED and the demo file present, and write {wt}/meta.txt containing: a short name for the change (a few words), what the change is and where, which clause of the property it breaks, exactly what it needs in order to manifest, and the commands you ran with their outcomes.
 
 Keep the build output inside the worktree (default target dir). Your final answer should be a brief report: short name, files touched, trigger, and the three verification outcomes.""")
